@@ -453,6 +453,15 @@ func run(c *Ctx) {
 	farg := "func(g,d){if d==0{y=42;g(g,1)}else{y}}"
 	one(c, sess{[]string{"m = macro(f){quote(unquote(f)(unquote(f),0))}\nprintln(catch(m(" + farg + ")))\n"}, []string{"println(catch(((" + farg + ")((" + farg + "),0))))\n"}})
 	one(c, sess{[]string{"m = macro(f){quote([unquote(f), unquote(f)])}\np = m(" + farg + ")\nprintln(catch(p[0](p[1],0)), catch(p[1](p[0],0)))\n"}, []string{"p = ([(" + farg + "), (" + farg + ")])\nprintln(catch(p[0](p[1],0)), catch(p[1](p[0],0)))\n"}})
+	// ... and the function literal wrapped in every expression form an argument can have (a copy decision made by looking for
+	// function literals in the argument must look everywhere)
+	fl := "func(g,d){if d==0{y:=42;g(g,1)}else{y}}"
+	for _, w := range []string{"if fast {@} else {@}", "[@][0]", "{1:@}[1]", "(@)", "(() => @)()", "if !fast {1} else {@}", "(n => @)(0)", "[0, @][1]", "for 1 {@}", "func(){@}()", "if fast {if fast {@} else {2}} else {3}"} {
+		arg := strings.ReplaceAll(w, "@", fl)
+		pre := "y = 7; fast = true\n"
+		one(c, sess{[]string{pre + "selfapply = macro(f){quote(unquote(f)(unquote(f),0))}\nprintln(catch(selfapply(" + arg + ")))\n"}, []string{pre + "println(catch(((" + arg + ")((" + arg + "),0))))\n"}})
+		one(c, sess{[]string{pre + "pair = macro(f){quote([unquote(f), unquote(f)])}\n", "func use(){p = pair(" + arg + "); [catch(p[0](p[1],0)), catch(p[1](p[0],0))]}\nprintln(use())\n"}, []string{pre, "func use(){p = ([(" + arg + "), (" + arg + ")]); [catch(p[0](p[1],0)), catch(p[1](p[0],0))]}\nprintln(use())\n"}})
+	}
 	n := 500
 	if c.Thorough() {
 		n = 20000
